@@ -1,0 +1,44 @@
+//go:build verif
+
+package types
+
+// Contracts for the deductive checker in /verif (comment-only; compiled only with -tags verif). C10, registry side.
+
+/*@
+// "erc20/<address string>": fmt.Sprintf, a function of the address string
+func CreateDenom
+    pure as create_denom
+func CreateDenomDescription
+    pure as create_denom_desc
+func SanitizeERC20Name
+    pure as sanitize_name
+func NewERC20Data
+    inline
+
+// the pair links exactly the given contract and denomination, has the given owner kind and starts enabled
+func NewTokenPair
+    ensures fields: result.Erc20Address == eaddr_str(erc20Address) && result.Denom == denom && result.Enabled && result.ContractOwner == contractOwner
+
+// message constructor used by the IBC transfer wrapper
+func NewMsgConvertERC20
+    ensures fields: result != nil && fresh(result) && result.ContractAddress == eaddr_str(contract) && result.Amount == amount
+            && result.Receiver == addr_string(receiver) && result.Sender == eaddr_hex(sender)
+
+func EqualStringSlice
+    ensures eq: result == (len(aliasesA) == len(aliasesB) && (forall j int :: 0 <= j && j < len(aliasesA) ==> aliasesA[j] == aliasesB[j]))
+    loop 1 invariant idx: 0 <= i && i <= len(aliasesA) && len(aliasesA) == len(aliasesB)
+            && (forall j int :: 0 <= j && j < i ==> aliasesA[j] == aliasesB[j])
+
+// nil <=> the two metadata agree on base, description, display, name, symbol and on every denom unit (denom, exponent, aliases)
+specfunc UnitEq(a Metadata, b Metadata, j int) bool = a.DenomUnits[j].Exponent == b.DenomUnits[j].Exponent && a.DenomUnits[j].Denom == b.DenomUnits[j].Denom
+        && len(a.DenomUnits[j].Aliases) == len(b.DenomUnits[j].Aliases)
+        && (forall l int :: 0 <= l && l < len(a.DenomUnits[j].Aliases) ==> a.DenomUnits[j].Aliases[l] == b.DenomUnits[j].Aliases[l])
+specfunc MetaEq(a Metadata, b Metadata) bool = a.Base == b.Base && a.Description == b.Description && a.Display == b.Display
+        && a.Name == b.Name && a.Symbol == b.Symbol && len(a.DenomUnits) == len(b.DenomUnits)
+        && (forall j int :: 0 <= j && j < len(a.DenomUnits) ==> UnitEq(a, b, j))
+func EqualMetadata
+    requires units: UnitsNonNil(a) && UnitsNonNil(b)
+    ensures eq: (result == nil) == MetaEq(a, b)
+    loop 1 invariant idx: 0 <= #i && #i <= len(a.DenomUnits) && len(a.DenomUnits) == len(b.DenomUnits)
+            && (forall j int :: 0 <= j && j < #i ==> UnitEq(a, b, j))
+@*/
